@@ -25,9 +25,12 @@ func Parts() []mc.Part {
 		mc.ExplorePart("farm-two-denoms-future-start", farm.New(farm.Variant{Name: "two-denoms-future-start", Farmers: []string{"A"}, StakeAmts: []int64{2},
 			RPB: sdk.NewCoins(mc.C("eth", 2), mc.C("btc", 3)), Total: sdk.NewCoins(mc.C("eth", 7), mc.C("btc", 7)),
 			StartDelta: 2, Creator: true, Mode: "C13"}), 6, 8, false, rule),
+		// heights are the queue keys: this chain starts at 252 and the pool ends at 255 / 256
+		mc.ExplorePart("farm-creator-ops-at-height-252", farm.New(farm.Variant{Name: "creator-ops-at-height-252", Farmers: []string{"A", "B"}, StakeAmts: []int64{1},
+			RPB: sdk.NewCoins(mc.C("eth", 3)), Total: sdk.NewCoins(mc.C("eth", 10)), Creator: true, Mode: "C13", InitialHeight: 252}), 6, 8, false, rule),
 	)
 	ps = append(ps, service.Parts("C13")()...)
-	for _, v := range []c18.Variant{c18.QueueVariant(), c18.OracleVariant()} {
+	for _, v := range []c18.Variant{c18.QueueVariant(), c18.OracleVariant(), c18.BoundaryVariant()} {
 		mk := c18.New(v)
 		ps = append(ps, mc.ExplorePart("random-"+v.Name, func() (*mc.Env, mc.Driver) {
 			e, d := mk()
